@@ -9,7 +9,7 @@ PROP = {
     "rule": "case = generated workspace (3-8 files, every file with a unique path and a unique marker in all names and doc texts it declares) + optional edits + removal of 1-3 files "
             "in random order (remove_file_by_uri, 1/5 update_file_by_uri(u, None)) + optional re-submissions of survivors; every string of the dump is scanned; "
             "distinct = hash of (texts, config, setup, steps); non-trivial = >= 1 file removed, >= 1 survivor, >= 50 strings scanned",
-    "min_nontrivial": {"quick": 500, "thorough": 15000},
+    "min_nontrivial": {"quick": 500, "thorough": 10000},
     "max_secs": {"quick": 60, "thorough": 1000},
     "require_clauses": ["a:no-path-of-removed-file", "b:no-symbol-or-doc-of-removed-file", "c:census-released", "step:remove", "step:remove-by-none"],
     "assumptions": COMMON_ASSUME + [
